@@ -28,7 +28,9 @@ StaticCStream == /\ Is("staticCStream") /\ Ev.guardOK
 StaticParams == /\ Is("staticParams") /\ Ev.guardOK /\ Ev.estimateOK /\ Ev.init /\ Ev.ok /\ Ev.roundtrip
 \* decoder in caller memory sized for window W: accepts the frame iff its window is within W
 StaticDStream == /\ Is("staticDStream") /\ Ev.guardOK /\ Ev.init
-                 /\ (Ev.ok <=> Ev.window <= Ev.W) /\ (Ev.ok => Ev.match)
+                 /\ (Ev.window <= Ev.W) => Ev.ok
+                 /\ (Ev.window > Ev.W /\ ~Ev.mayShortcut) => ~Ev.ok     \* (a frame decoded in a single pass needs no internal buffers: it may succeed)
+                 /\ (Ev.ok => Ev.match)
 \* heap decoder with ZSTD_d_windowLogMax: refusal iff the frame needs more; buffers within the documented function of the limit
 HeapDStream == /\ Is("heapDStream")
                /\ (Ev.ok <=> Ev.window <= Ev.limit) /\ (Ev.ok => Ev.match)
